@@ -1746,6 +1746,43 @@ def scripted(llb, base):
             if strict and rc == 0:
                 out.append(("cycle-not-rejected", "--strict: a phony statement listing itself (`build all: phony out %sall`) was accepted with exit status 0; strict mode has no "
                             "bug compatibility and must report the cycle" % ("|| " if variant == "oo" else ""), rpl(d, log)))
+    # -- tolerated shapes (seed C07-10): a phony statement with SEVERAL outputs that lists its first / second / last output among
+    #    its own explicit / implicit / order-only inputs is not a cycle in default mode (the self-reference is left out for every
+    #    output, c18_start_keys_phony_lenient): the build succeeds and builds the real input; --strict reports the cycle.
+    #    (ninja 1.11.1 tolerates only the single-output form; its verdict is recorded, not judged.)
+    PH = {
+        "first": ("build all extras: phony out.txt all\n", "all"),
+        "second": ("build all extras: phony out.txt extras\n", "all"),
+        "last-of-3": ("build all extras more: phony out.txt more\n", "all"),
+        "second-oo": ("build all extras: phony out.txt || extras\n", "all"),
+        "second-imp-demanded": ("build all extras: phony out.txt | extras\n", "extras"),
+        "two-of-3": ("build all extras more: phony out.txt extras | more\n", "more"),
+    }
+    for name, (stmt, target) in PH.items():
+        M = "rule G\n  command = echo $out >> runlog; cat in > $out\nbuild out.txt: G in\n" + stmt + "default %s\n" % target
+        for strict in (0, 1):
+            d = sandbox("phony-multi-%s-%d" % (name, strict), M, {"in": ("i\n", 10)})
+            log = [build(llb, d, ["-j1"] + (["--strict"] if strict else []))]
+            if not strict:
+                log.append(build(llb, d, ["-j1"]))
+            rc, ran, txt = log[0]
+            nj = vlib.sh(["ninja", "-C", d, "-n"], timeout=60)
+            if not strict and (rc != 0 or ran != ["out.txt"] or not os.path.exists(os.path.join(d, "out.txt"))):
+                out.append(("false-cycle-on-tolerated-phony", "default mode: `%s` lists one of its own outputs among its inputs, which is tolerated for phony statements "
+                            "(the self-reference is not requested): the build must succeed and build out.txt, but exit status %d, ran %s (ninja 1.11.1 -n: exit status %d)" % (
+                                stmt.strip(), rc, ran, nj[0]), rpl(d, log, history=["build"])))
+            elif not strict and (log[1][0] != 0 or log[1][1]):
+                out.append(("null-build-runs", "tolerated phony self-reference (%s): the immediate rebuild ran %s / exit status %d" % (name, log[1][1], log[1][0]), rpl(d, log)))
+            elif strict and rc == 0:
+                out.append(("cycle-not-rejected", "--strict: `%s` was accepted with exit status 0; strict mode must report the cycle" % stmt.strip(), rpl(d, log)))
+    # -- a cycle through an order-only edge (seed C07-9 cross-check): must fail and run nothing of the cycle
+    M = "rule CAT\n  command = echo $out >> runlog; cat $in > $out\nbuild mid: CAT src || gen\nbuild gen: CAT mid\ndefault gen\n"
+    for strict in (0, 1):
+        d = sandbox("cycle-orderonly-%d" % strict, M, {"src": ("s\n", 10)})
+        log = [build(llb, d, ["-j1"] + (["--strict"] if strict else []))]
+        rc, ran, txt = log[0]
+        if rc == 0 or ran:
+            out.append(("cycle-not-rejected", "cycle through an order-only edge (`build mid: CAT src || gen`, `build gen: CAT mid`): exit status %d, ran %s" % (rc, ran), rpl(d, log)))
     # -- restat: an upstream command that leaves its output untouched does not re-run its dependents; without restat it does
     for restat in (1, 0):
         M = ("rule MK\n  command = echo $out >> runlog; if [ ! -f $out ]; then cp $in $out; fi\n%srule CP\n  command = echo $out >> runlog; cp $in $out\n"
